@@ -43,6 +43,10 @@ def rewrite(rng, text, cell_edges=False, skip_p=0.35, lead_p=0.0):
         if not ws or rng.random() < skip_p or (seg.startswith("## ") and seg.upper() == seg):
             # (an ALL-CAPS bold paragraph is a heading only by heuristic: rewriting its words would change that)
             return seg
+        if seg[:1] in "*_" and not in_table and rng.random() < 0.5:
+            # a word put in front of a paragraph that begins with a bold / italic run (before the opening marker)
+            changed += 1
+            return rng.choice(NEWW) + " " + seg
         k = rng.randint(1, min(3, len(ws)))
         picks = set(rng.sample(range(len(ws)), k))
         if rng.random() < 0.3:
